@@ -18,6 +18,7 @@ from __future__ import annotations
 
 import copy
 import math
+import sys
 from fractions import Fraction
 
 import shim  # noqa: F401
@@ -90,6 +91,55 @@ def _mk_opcond(case):
     return OperatingConditions(t_tot=case["t_tot"], cooling=cooling, holding=holding, cnTemp=case.get("cn"))
 
 
+# ---------------------------------------------------------------------------
+# the trigger step AS THE REAL run() COMPUTES IT: read from the frame of Snowflake.run at its first generator call
+# (the run is aborted there).  A missing frame-local is a BROKEN OBSERVATION and is reported, never a pass.
+# ---------------------------------------------------------------------------
+class _Stop(Exception):
+    pass
+
+
+def _real_kcn(op, dt):
+    import contextlib
+    import io
+
+    from ethz_snow.snowflake import Snowflake
+
+    got = {}
+
+    class _P:
+        def __init__(self, real):
+            self.real = real
+
+        def random(self, n=None):
+            f = sys._getframe(1)
+            while f is not None and f.f_code.co_name != "run":
+                f = f.f_back
+            if f is not None:
+                loc = f.f_locals
+                if "k_CN" in loc:
+                    got["k_CN"] = int(loc["k_CN"])
+                if "N_timeSteps" in loc:
+                    got["N"] = int(loc["N_timeSteps"])
+            raise _Stop()
+
+        def __getattr__(self, name):
+            return getattr(self.real, name)
+
+    orig = np.random.default_rng
+    with contextlib.redirect_stdout(io.StringIO()):
+        S = Snowflake(k={"int": 0, "ext": 0, "s0": 20}, N_vials=(1, 1, 1), dt=dt, opcond=op)
+        np.random.default_rng = lambda *a, **kw: _P(orig(*a, **kw))
+        S._rng = _P(S._rng)
+        try:
+            S.run()
+        except _Stop:
+            pass
+        finally:
+            np.random.default_rng = orig
+    return got
+
+
 def _impl_cnt(case):
     try:
         oc = _mk_opcond(case)
@@ -101,14 +151,12 @@ def _impl_cnt(case):
         dt = case["dt"]
         N = int(np.ceil(case["t_tot"] / dt)) + 1
         t = np.arange(N) * dt
-        # the expression of Snowflake.run()
-        if np.any(t >= cnt):
-            k_CN = int(np.argmax(t >= cnt))
-        else:
-            k_CN = N + 1
+        # k_CN and N_timeSteps as the REAL Snowflake.run() computes them (read from its frame)
+        got = _real_kcn(oc, dt)
         return {"raise": None, "cnt": (None if (isinstance(cnt, float) and math.isinf(cnt)) else int(cnt)),
                 "cnt_is_int": bool(isinstance(cnt, (int, np.integer))), "len1": int(len(T1)),
-                "T1": [float(x) for x in T1], "N": N, "kCN": k_CN}
+                "T1": [float(x) for x in T1], "N": got.get("N", N), "N_harness": N, "kCN": got.get("k_CN"),
+                "t_last": float(t[-1])}
     except Exception as e:
         return {"raise": core.exc_class(e), "stage": "cnt"}
 
@@ -175,8 +223,8 @@ def _compare_cnt(case, impl, model):
         dis.append(f"len(tempProfile(1)): impl {impl['len1']} vs model {model['len1']}")
     if impl["N"] != model["N"]:
         dis.append(f"N_timeSteps: impl {impl['N']} vs model {model['N']}")
-    if impl["kCN"] != model["kCN"]:
-        dis.append(f"{pre}k_CN: impl {impl['kCN']} vs model {model['kCN']}")
+    if impl["kCN"] is not None and impl["kCN"] != model["kCN"]:
+        dis.append(f"{pre}k_CN: Snowflake.run {impl['kCN']} vs model {model['kCN']}")
     if "cnt_rat" in model:
         if impl["cnt"] != model["cnt_rat"] or impl["len1"] != model["len1_rat"]:
             dis.append(f"exact stream: cnt impl {impl['cnt']} (len {impl['len1']}) vs Rat model {model['cnt_rat']} "
@@ -208,8 +256,10 @@ def _cont_end(case):
 
 def _pred_cnt(case, impl):
     out = []
-    if not _wf(case) or case.get("cn") is None:
+    if not _wf(case):
         return out
+    if case.get("cn") is None:
+        return out if impl.get("raise") else _pred_kcn(case, impl)
     site = "OperatingConditions.cnt"
     if impl.get("raise"):
         out.append(Failure(clause="total", key=f"raises|{site}|{impl['raise']}",
@@ -232,11 +282,28 @@ def _pred_cnt(case, impl):
             if not abs(cnt - E) < nseg + 1e-6 * max(1.0, E):
                 out.append(Failure(clause="cnt_end_of_hold", key=f"cnt_end_of_hold|{site}|{kind}",
                                    detail=f"cnt={cnt} but the program leaves {cn} at t={E} ({kind}; {nseg} program segments)"))
-    dt, N, k = case["dt"], impl["N"], impl["kCN"]
-    if any(j * dt >= cnt for j in range(N)):
+    out += _pred_kcn(case, impl)
+    return out
+
+
+def _pred_kcn(case, impl):
+    """the trigger step of the REAL run() (frame-local k_CN) against the property: first step at or after cnt"""
+    out = []
+    dt, N, k, cnt = case["dt"], impl["N"], impl["kCN"], impl["cnt"]
+    if k is None:
+        out.append(Failure(clause="kCN_first_step", key="observation|Snowflake.run|k_CN-not-observable",
+                           detail="the frame of Snowflake.run() exposes no local `k_CN` at its first generator call: the "
+                                  "trigger step of the real run cannot be observed (broken observation, not a pass)"))
+        return out
+    if N != impl.get("N_harness", N):
+        out.append(Failure(clause="kCN_first_step", key="kCN_first_step|Snowflake.run|N_timeSteps",
+                           detail=f"N_timeSteps of the run {N} vs ceil(t_tot/dt)+1 = {impl.get('N_harness')}"))
+    if cnt is None:
+        ok = k >= N  # never reached
+    elif any(j * dt >= cnt for j in range(N)):
         ok = k < N and k * dt >= cnt and (k == 0 or (k - 1) * dt < cnt)
     else:
-        ok = k == N + 1
+        ok = k >= N
     if not ok:
         out.append(Failure(clause="kCN_first_step", key="kCN_first_step|Snowflake.run|",
                            detail=f"k_CN={k} for cnt={cnt}, dt={dt}, N={N}"))
@@ -266,16 +333,63 @@ def _typed(case):
     return c
 
 
+_REC = {"kcn": [], "forced": [], "nok": 0}
+_BaseProxy = fu.Proxy
+
+
+class _RecProxy(_BaseProxy):
+    """flakeutil's recording proxy + what the frame of Snowflake.run() shows at every generator call:
+    its local `k_CN`, and whether P of every candidate is exactly 1 (the forced step)."""
+
+    def random(self, n=None):
+        f = sys._getframe(1)
+        while f is not None and f.f_code.co_name != "run":
+            f = f.f_back
+        loc = f.f_locals if f is not None else {}
+        # flakeutil.Proxy._ctx reads the caller's frame two levels up - which is now THIS frame: hand the locals on
+        if "k" in loc:
+            k = loc["k"]
+        else:
+            _REC["nok"] += 1
+        if "P" in loc:
+            P = loc["P"]
+        if "nucleationCandidatesMask" in loc:
+            nucleationCandidatesMask = loc["nucleationCandidatesMask"]
+        _REC["kcn"].append(int(loc["k_CN"]) if "k_CN" in loc else None)
+        if "P" in loc and "nucleationCandidatesMask" in loc and "k" in loc:
+            m = np.asarray(loc["nucleationCandidatesMask"], dtype=bool)
+            if m.any() and bool(np.all(np.asarray(loc["P"])[m] == 1.0)):
+                _REC["forced"].append(int(loc["k"]))
+        return _BaseProxy.random(self, n)
+
+
+def _run_rec(case):
+    _REC["kcn"], _REC["forced"], _REC["nok"] = [], [], 0
+    orig = fu.Proxy
+    fu.Proxy = _RecProxy
+    try:
+        a = fu.run_real(case)
+    finally:
+        fu.Proxy = orig
+    seen = [x for x in _REC["kcn"] if x is not None]
+    a["kCN_real"] = seen[0] if seen and len(seen) == len(_REC["kcn"]) and len(set(seen)) == 1 else None
+    a["forced_steps"] = sorted(set(_REC["forced"]))
+    a["calls_without_k"] = _REC["nok"]
+    return a
+
+
 def _impl_pair(case):
     try:
-        a = fu.run_real(_typed(case))
-        b = fu.run_real(_no_cn(case))
+        a = _run_rec(_typed(case))
+        b = _run_rec(_no_cn(case))
     except Exception as e:
         return {"raise": core.exc_class(e), "stage": "run", "msg": str(e)[:200]}
     t = np.asarray(a["t"])
     cnt = a["cnt"]
     N = a["N"]
-    a["kCN_obs"] = int(np.argmax(t >= cnt)) if (cnt is not None and np.any(t >= cnt)) else N + 1
+    # what the property demands (first step at or after cnt) - the observation is a["kCN_real"]
+    a["kCN_want"] = int(np.argmax(t >= cnt)) if (cnt is not None and np.any(t >= cnt)) else N + 1
+    a["kCN_obs"] = a["kCN_real"] if a["kCN_real"] is not None else a["kCN_want"]
     return {"raise": None, "cn": a, "no": b}
 
 
@@ -304,6 +418,27 @@ def _pred_pair(case, impl):
     a, b = impl["cn"], impl["no"]
     N, k_cn, dt = a["N"], a["kCN_obs"], a["dt"]
     site = "Snowflake.run"
+    # (0) the trigger step is OBSERVED in the real run: frame-local k_CN and the step(s) at which P == 1 for every candidate
+    for tag, r in (("with", a), ("without", b)):
+        if r["kCN_real"] is None or r["calls_without_k"]:
+            out.append(Failure(clause="kCN_first_step", key=f"observation|{site}|frame-locals-missing",
+                               detail=f"run {tag} cnTemp: the frame of Snowflake.run() does not expose `k_CN` / `k` at every "
+                                      f"generator call ({r['calls_without_k']} calls without k): broken observation, not a pass"))
+    if a["kCN_real"] is not None:
+        kr, kw = a["kCN_real"], a["kCN_want"]
+        if (kr if kr < N else N + 1) != (kw if kw < N else N + 1):
+            out.append(Failure(clause="kCN_first_step", key=f"kCN_first_step|{site}|",
+                               detail=f"the run uses k_CN={kr} but the first step at or after cnt={a['cnt']} is {kw} (dt={dt}, N={N})"))
+        bad = [k for k in a["forced_steps"] if k != kr]
+        if bad:
+            out.append(Failure(clause="cn_only_then", key=f"cn_only_then|{site}|P-forced-elsewhere",
+                               detail=f"every candidate has P == 1 at steps {bad[:5]} although k_CN={kr}"))
+    if b["kCN_real"] is not None and b["kCN_real"] < N:
+        out.append(Failure(clause="kCN_first_step", key=f"kCN_first_step|{site}|without-cnTemp",
+                           detail=f"run without cnTemp has k_CN={b['kCN_real']} < N={N}"))
+    if b["forced_steps"]:
+        out.append(Failure(clause="cn_only_then", key=f"cn_only_then|{site}|P-forced-without-cnTemp",
+                           detail=f"run without cnTemp: P == 1 for every candidate at steps {b['forced_steps'][:5]}"))
     # (1) identical up to the trigger step
     last = min(k_cn, N - 1)
     for k in range(last + 1):
@@ -326,6 +461,10 @@ def _pred_pair(case, impl):
     TeqL = a["consts"]["T_eq_l"]
     calls = {c[0]: c[1] for c in a["calls"] if c[0] is not None}
     have_k = len(calls) == len(a["calls"])
+    if not have_k:
+        out.append(Failure(clause="cn_only_then", key=f"observation|{site}|step-index-missing",
+                           detail="generator calls without an observable step index: 'no vial forced at another step' "
+                                  "cannot be evaluated (broken observation, not a pass)"))
     tn = a["tNuc"]
     nuc_step = [None if math.isnan(x) else int(round(x / dt)) - 1 for x in tn]
     steps = sorted(set(s for s in nuc_step if s is not None) | ({k_cn} if k_cn < N else set()))
@@ -469,6 +608,10 @@ def _compare_hist(case, impl, model):
 def _pred_hist(case, impl):
     out = []
     if impl.get("raise"):
+        # every generated history is a sequence of valid programs: an exception is a failure (decided here; the
+        # model side only echoes it)
+        out.append(Failure(clause="total", key=f"raises|history|{impl['raise']}",
+                           detail=f"valid object history {case['edits']} raises {impl['raise']}: {impl.get('msg')}"))
         return out
     kinds = "+".join(sorted(set(e[0] for e in case["edits"])))
     if impl["cnt_after"] != impl["cnt_fresh"]:
@@ -653,6 +796,15 @@ def _with_cn(rng, prog, exact=False):
     return c
 
 
+def _longprog(rng):
+    """a very long programme (t_tot > 1e5 s, storage freezing over days) with hold / ramp durations that are not
+    multiples of a few seconds: the trigger time must still be found on the 1 s grid"""
+    t_tot = rng.choice([2.4e5, 3.1e5])
+    holds = [[0, rng.choice([1805, 1811])], [-5.5, rng.choice([7207, 7213])]]
+    return dict(kind="cnt", cnkind="hold-long", t_tot=t_tot, start=20, stop=-40, rate=rng.choice([0.001, 0.0007]),
+                holds=holds, isList=True, cn=rng.choice([0, -5.5]), dt=rng.choice([20, 7]))
+
+
 def _pair(rng, big=False):
     shape = rng.choice([[1, 1, 1], [2, 2, 1], [3, 3, 1], [3, 3, 1], [4, 3, 1], [5, 5, 1]] + ([[7, 7, 1]] if big else []))
     K = rng.choice([200, 500, 1000, 2000])
@@ -723,6 +875,8 @@ def cases(rng, tier):
         yield _with_cn(rng, c05._exact(rng), exact=True)
     for _ in range(n_p):
         yield _pair(rng, big=(tier != "quick"))
+    for _ in range(1 if tier == "quick" else 4):
+        yield _longprog(rng)
     n_h, n_hr = (150, 16) if tier == "quick" else (3000, 200)
     for _ in range(n_h):
         yield _hist(rng)
